@@ -7,10 +7,14 @@
   model; here the hypotheses are discharged:
   * `floatBitsLaw : FloatBitsLaw`, `float32BitsLaw : Float32BitsLaw`;
   * `codecLaws_float_ieee`, `codecLaws_float32_ieee`: `CodecLaws` for the driver's instances, unconditionally;
-  * `editor_/difficulty_/events_block_roundtrip_ieee'`: the section round trips without the bit-cast hypotheses.
+  * `editor_/difficulty_/events_block_roundtrip_ieee'`: the section round trips without the bit-cast hypotheses;
+  * `floatOfIntLaw : FloatOfIntLaw` (Lemmas/FloatModelOfInt.lean: `Float.ofInt z` = `z.toUInt64.toFloat * 1.0` is exact in
+    the model for `|z| < 2^53` and has the pattern `roundRat fmt64 |z| 1` that `parseBits` assigns to the digits of `z`),
+    hence `intPrintLaw_float_ieee : IntPrintLaw Float` and `general_block_roundtrip_ieee'`, unconditionally.
 -/
 import RosuModel.Props.C02Codec
 import RosuModel.Lemmas.FloatModelBits
+import RosuModel.Lemmas.FloatModelOfInt
 namespace Rosu.C02
 open Rosu Encode EncodeLines C11 FCL
 
@@ -55,5 +59,34 @@ theorem events_block_roundtrip_ieee' (e : Events Float)
     Accepts parseEvents (Events.default : Events Float) (RtEvents.decodedLines e) ∧
     runSection parseEvents (Events.default : Events Float) (RtEvents.decodedLines e) = e :=
   events_block_roundtrip_ieee floatBitsLaw e he
+
+/-! ### `Float.ofInt` -/
+
+/-- **`Float.ofInt z` has the bit pattern `intBits fmt64 z`** for every `|z| < 2^53` (model-level theorem). -/
+theorem float_ofInt_bits (z : Int) (hz : z.natAbs < 2 ^ 53) : (Float.ofInt z).toBits.toNat = intBits fmt64 z :=
+  FM.float_ofInt_bits z hz
+
+/-- **the `ofInt` law of `Float` is a theorem.** -/
+theorem floatOfIntLaw : FloatOfIntLaw := by
+  intro z h1 h2
+  apply FM.float_ofInt_bits
+  unfold i32Max at *
+  omega
+
+/-- **`IntPrintLaw` for the driver's `Float`** (integral values in the `i32` range print like integers) — no hypothesis. -/
+theorem intPrintLaw_float_ieee : IntPrintLaw Float := intPrintLaw_float floatOfIntLaw
+
+/-- every integer below `2^53` in absolute value prints as its digits through `Float.ofInt`. -/
+theorem float_print_ofInt (z : Int) (hz : z.natAbs < 2 ^ 53) : Scalar.print (Float.ofInt z) = intDigits z := by
+  show printBits fmt64 (Float.ofInt z).toBits.toNat = intDigits z
+  rw [FM.float_ofInt_bits z hz]
+  exact printBits_intBits_f64 z hz
+
+theorem general_block_roundtrip_ieee' (g : GeneralState Float Float32)
+    (ss : SampleBank) (hg : RtGeneral.RepGeneral (fun x : Float32 => x.isNaN = false) g) :
+    Accepts RtGeneral.generalStep (GeneralState.default : GeneralState Float Float32) (RtGeneral.decodedLines g ss) ∧
+    runSection RtGeneral.generalStep (GeneralState.default : GeneralState Float Float32) (RtGeneral.decodedLines g ss) =
+      RtGeneral.preservedGeneral g ss :=
+  general_block_roundtrip_ieee floatOfIntLaw float32BitsLaw g ss hg
 
 end Rosu.C02
